@@ -12,8 +12,8 @@ out = ["__N__ changes written by independent sub-agents in five batches (each gi
        "and undoes it; the table is generated from `seeded/RESULTS.tsv` by `tools_design_table.py`. *deductive* = a named obligation of the",
        "property failed; *witness* = a failing input was found on the real code (monitor scenario or bounded part); `no-failing-input-found`",
        "as printed by the check. Rows date from the last run of that change: all changes of C12-C16, C19 and C20 and a cross-section of",
-       "18 changes over all other properties were re-run after the last engine change (section 2.7, silent conversions); the remaining rows",
-       "were produced by earlier, strictly more permissive versions of the engine with the same contracts.", "",
+       "11 changes over the other properties (one each) were re-run after the last engine change (section 2.7, silent conversions); the",
+       "remaining rows were produced earlier the same day by an engine that differed only in those conversions, with the same contracts.", "",
        "| id | what the change does (from the sub-agent's note) | verdict | what caught it |", "|----|---|---|---|"]
 def short(s, n):
     s = " ".join(s.split())
